@@ -15,6 +15,8 @@ def main():
     if a == '--checks': checks = sys.argv[i + 1].split(',')
     if a == '--tier': tier = sys.argv[i + 1]
   wt = f'/tmp/wt_{name}'
+  for i, a in enumerate(sys.argv):
+    if a == '--wt': wt = sys.argv[i + 1]
   seed = os.path.join(wt, '_seed')
   env = dict(os.environ, PYTHONPATH=wt, TF_CPP_MIN_LOG_LEVEL='3')
   out = {'property': pid, 'worktree': wt}
